@@ -78,6 +78,7 @@ pub fn dispatch(which: &str, v: &Value, case: &Value) -> Value {
         "c18_sep" => c18_sep(v),
         "c01_tok" => c01_tok(v),
         "c01_l1c" => c01_l1c(v),
+        "c01_scan" => c01_scan(v),
         "c01_bin" => c01_bin(v),
         "c01_flags" => c01_flags(v),
         "c01_dom" => c01_dom(v),
@@ -211,6 +212,46 @@ fn c01_tok(v: &Value) -> Value {
     });
     json!({"reproduced": m && !missing.is_empty(), "rule": line, "url": url, "matcher_accepts": m, "rule_tokens_missing_from_request": missing.len(),
            "engine_matched": engine, "engine_lost": m && !engine, "lift": lifted})
+}
+/// The bucket scan is crate-private. Lift: the two rules become exception rules (exceptions stay in one list
+/// whatever their tag; check() scans it) or csp rules (check_all()), next to a catch-all blocking rule; rule i is
+/// given an empty pattern when the counterexample says it matches and a never-matching literal otherwise.
+fn c01_scan(v: &Value) -> Value {
+    let tags: Vec<Option<String>> = v["tags"].as_array().map(|a| a.iter().map(|t| t.as_str().map(|s| s.to_string())).collect()).unwrap_or_default();
+    let a_on = b(&v["a_on"]);
+    let all = b(&v["all"]);
+    let outcomes = [b(&v["o1"]), b(&v["o2"])];
+    let rt = if all { RequestType::Document } else { match u(&v["rt"]) % 3 { 0 => RequestType::Script, 1 => RequestType::Document, _ => RequestType::Image } };
+    let req = mk_request("https://x.com/page", "x.com", rt, false, true, b(&v["tp"]), None);
+    let mut rules = vec![];
+    let mut want = vec![];
+    for i in 0..2 {
+        let tag = tags.get(i).cloned().flatten();
+        let mut mask = NetworkFilterMask::DEFAULT_OPTIONS | NetworkFilterMask::FROM_DOCUMENT;
+        if all { mask |= NetworkFilterMask::IS_CSP; } else { mask |= NetworkFilterMask::IS_EXCEPTION; }
+        let part = if outcomes[i] { FilterPart::Empty } else { FilterPart::Simple("zz-never-in-url".into()) };
+        let mut f = mk_filter(mask.bits(), part, None, tag.as_deref());
+        if all { f.modifier_option = Some(format!("d{}", i + 1)); }
+        f.id = (i + 1) as u64;
+        let active = tag.as_deref().map(|t| a_on && t == "a").unwrap_or(true);
+        want.push(outcomes[i] && active);
+        rules.push(f);
+    }
+    let mut catch_all = mk_filter((NetworkFilterMask::DEFAULT_OPTIONS | NetworkFilterMask::FROM_DOCUMENT).bits(), FilterPart::Empty, None, None);
+    catch_all.id = 99;
+    rules.push(catch_all);
+    let mut bl = blocker_of(rules, false);
+    if a_on { bl.use_tags(&["a"]); }
+    if all {
+        let csp = bl.get_csp_directives(&req).unwrap_or_default();
+        let got: Vec<bool> = (0..2).map(|i| csp.split(',').any(|d| d == format!("d{}", i + 1))).collect();
+        json!({"reproduced": got != want, "csp": csp, "want": want, "api": "Blocker::get_csp_directives (check_all)"})
+    } else {
+        let r = bl.check(&req, &ResourceStorage::default());
+        let got = r.exception.is_some();
+        let w = want[0] || want[1];
+        json!({"reproduced": got != w, "exception_found": got, "want": w, "matched": r.matched, "api": "Blocker::check (exception list scan)"})
+    }
 }
 fn alnum(c: u8) -> bool {
     c.is_ascii_alphanumeric() || c == b'%'
